@@ -1591,6 +1591,7 @@ def flat_iteration(tree):
 
         class F(ast.NodeTransformer):
             def _comp(self, node):
+                nonlocal n
                 self.generic_visit(node)
                 if len(node.generators) == 1 and is_flat(node.generators[0].iter) and isinstance(node.generators[0].target, ast.Name):
                     g = node.generators[0]
